@@ -9,7 +9,14 @@ Dimension "read policy of the handle's file object": `SFTPHandle.read` is docume
 to* `length` bytes and to signal end of file with b"" or SFTP_EOF, so every grid case is run against
 a handle whose file object reads in full, returns at most k bytes per read, or cuts the k-th read of
 the request short - each with both end-of-file signals.  The digests must not depend on it.
+
+Dimension "what happened on the handle before the request" (part 2): the handle is opened 'r', 'r+' or
+'a+'; every sequence of at most two earlier requests on the same handle (check-file, read, write /
+append, and a check-file or read during which one read of the file object fails once with EIO, with
+or without having moved the file position) is followed by one check-file probe.  The digests must be
+those of the bytes the file holds at that moment, whatever the handle did before.
 """
+import errno
 import hashlib
 import itertools
 import os
@@ -17,7 +24,7 @@ import shutil
 import tempfile
 
 from vmc import core, enum, sftp_raw as R
-from paramiko.sftp import SFTP_EOF
+from paramiko.sftp import SFTP_EOF, CMD_READ, CMD_WRITE, int64
 
 PID = "C32"
 META = {
@@ -34,12 +41,23 @@ META = {
             "the request returns 1 byte or half of what was asked} x end-of-file signal of handle.read "
             "{b'', SFTP_EOF} (full product in both tiers).  Oracle: digest == concatenation of hash(content[a:b]) over "
             "consecutive blocks of the range clipped at EOF; every request is answered within the read "
-            "budget (scaled to the policy's read size).",
+            "budget (scaled to the policy's read size).  Part 2, handle history (both tiers): file sizes {1000, 70000} "
+            "(thorough adds 200000) x open mode {r, r+, a+} x every sequence of 0..2 earlier requests on the "
+            "same handle (thorough: 0..3 for size 1000) from {check-file of the whole file / of [0,256) / of "
+            "[256,512); read of [0,256) / [256,512) / the last 100 bytes and beyond; write of 300 bytes at "
+            "0 / 256 / end of file (r+) or appended (a+); check-file of the whole file / of [256,512) during "
+            "which the 1st or 2nd read of the file object raises EIO once, having moved the position or not; "
+            "read of [0,256) / [256,512) failing the same way} x one check-file probe from offsets {0, 256, "
+            "512, 65536, original size} x (length, block size) in {(0,0), (256,256)}.  Oracle: the probe's "
+            "digests are the hashes of the bytes the file holds at that moment (read back from disk); every "
+            "un-faulted check-file of the history is judged the same way; a request hit by the injected "
+            "fault may be refused.",
     "note": "block size 0 = one hash over the whole range; for ranges shorter than 256 bytes with "
             "block size 0, for block sizes 1..255 and for empty ranges a refusal is accepted as well "
             "(the statement is silent there); a case that already fails with full reads and b'' at EOF "
             "is not re-run under the other read policies, a failure seen only under a policy carries the "
-            "policy class in its key (:short-reads / :eof-code)",
+            "policy class in its key (:short-reads / :eof-code); a failure of part 2 carries the history class "
+            "(:after-failed-read / :after-append / :after-write / :after-reads, first that applies) in its key",
     "design_ref": "4/C32",
 }
 
@@ -70,9 +88,18 @@ class PolicyFile:
         self.f = f
         self.policy = ("full",)
         self.calls = 0          # read calls of the current request
+        self.fault = None       # (k, moved): the k-th read call raises EIO once, after / without consuming
+        self.fault_fired = False
 
     def read(self, n=-1):
         self.calls += 1
+        if self.fault is not None and self.calls == self.fault[0]:
+            moved = self.fault[1]
+            self.fault = None
+            self.fault_fired = True
+            if moved:
+                self.f.read(n)
+            raise IOError(errno.EIO, "Input/output error (injected)")
         p = self.policy
         if n is not None and n > 0:
             if p[0] == "cap":
@@ -102,9 +129,22 @@ def install_policy(lb):
     h.read = read
 
     class Ctl:
+        file = pf
+
         def set(self, policy):
             pf.policy, state["eof"] = policy
             pf.calls = 0
+
+        def arm(self, fault):
+            """New request: reset the call counter; fault = None | (k, moved)."""
+            pf.calls = 0
+            pf.fault = fault
+            pf.fault_fired = False
+
+        def disarm(self):
+            """-> True when the fault was injected during the last request."""
+            pf.fault = None
+            return pf.fault_fired
 
     return Ctl()
 
@@ -281,6 +321,230 @@ def run_size(item, acc):
         shutil.rmtree(base, ignore_errors=True)
 
 
+
+# ------------------------------------------------------------------------------------------------
+# part 2: what happened on the handle before the check-file request
+
+H_SIZES = {"quick": [1000, 70000], "thorough": [1000, 70000, 200000]}
+H_MODES = ["r", "r+", "a+"]
+H_WRITE = 300           # bytes per write: an appended tail alone is a range the statement covers
+
+
+def h_alphabet(mode, size):
+    """Earlier requests on the handle.  ("check", off, len, bs, fault) / ("read", off, n, fault) /
+    ("write", off, n); fault = None | (k, moved)."""
+    ops = []
+    ranges = [(0, 0, 0), (0, 256, 0), (256, 256, 0)]
+    for r in ranges:
+        ops.append(("check",) + r + (None,))
+    for off, n in ((0, 256), (256, 256), (size - 100, 1000)):
+        ops.append(("read", off, n, None))
+    if mode == "r+":
+        for off in (0, 256, size):
+            ops.append(("write", off, H_WRITE))
+    elif mode == "a+":
+        for off in (0, size):       # the offset of an append-mode write is ignored by the server
+            ops.append(("write", off, H_WRITE))
+    for r in (ranges[0], ranges[2]):
+        for k in (1, 2):
+            for moved in (True, False):
+                ops.append(("check",) + r + ((k, moved),))
+    for off, n in ((0, 256), (256, 256)):
+        for moved in (True, False):
+            ops.append(("read", off, n, (1, moved)))
+    return ops
+
+
+def h_probes(size):
+    return [(off, ln, bs) for off in (0, 256, 512, 65536, size) for ln, bs in ((0, 0), (256, 256))]
+
+
+def h_histories(mode, size, maxlen):
+    alpha = h_alphabet(mode, size)
+    for n in range(maxlen + 1):
+        yield from itertools.product(alpha, repeat=n)
+
+
+def h_class(mode, history, fired):
+    if fired:
+        return "after-failed-read"
+    if any(op[0] == "write" for op in history):
+        return "after-append" if mode == "a+" else "after-write"
+    return "after-reads"
+
+
+def h_run(acc, client, lb, base, size, data0, mode, history, probe, idx):
+    """One handle: history, then the probe.  -> None"""
+    path = os.path.join(base, "h")
+    with open(path, "wb") as f:
+        f.write(data0)
+    fobj = client.open("h", mode)
+    ctl = install_policy(lb)
+    fired = False
+    rec = {"part": "handle-history", "size": size, "mode": mode,
+           "history": [list(op[:-1]) + [list(op[-1]) if isinstance(op[-1], tuple) else op[-1]] for op in history],
+           "probe": list(probe)}
+    replay = dict(rec)
+
+    def disk():
+        with open(path, "rb") as f:
+            return f.read()
+
+    def fresh_fails(data, off, ln, bs, alg, want):
+        """The same request on a fresh read-only handle over a file with the same bytes: does it fail too?"""
+        with open(os.path.join(base, "h2"), "wb") as f:
+            f.write(data)
+        c2, lb2 = R.loop_client(base)
+        try:
+            f2 = c2.open("h2", "r")
+            lb2.si.read_budget = lb.si.read_budget
+            try:
+                return f2.check(alg, off, ln, bs) != want
+            except (R.SpinDetected, R.NoResponse, Exception):
+                return True
+            finally:
+                lb2.si.read_budget = None
+        finally:
+            lb2.close()
+
+    def check(off, ln, bs, alg, fault, what, prior):
+        """-> False when a violation was recorded.  prior: earlier requests were made on this handle."""
+        nonlocal fired
+        data = disk()
+        want, rng, nblocks = expected(data, off, ln, bs, alg)
+        budget = 4 * (nblocks + rng // CHUNK + 2) + 64
+        lb.si.read_budget = budget
+        applies = (bs >= 256 or (bs == 0 and rng >= 256)) and rng > 0
+        ctl.arm(fault)
+        err = got = None
+        clause = None
+        extra = {}
+        try:
+            got = fobj.check(alg, off, ln, bs)
+        except R.SpinDetected as e:
+            clause, extra = "no-answer-spins", {"last_read": str(e)}
+        except R.NoResponse as e:
+            clause, extra = "no-response", {"error": repr(e)}
+        except Exception as e:
+            err = e
+        hit = ctl.disarm()
+        hcls = h_class(mode, history, fired)
+        fired = fired or hit
+        if clause is None:
+            if err is not None:
+                if applies and not hit:
+                    clause, extra = "refused", {"error": repr(err)}
+            elif applies and got != want:
+                dl = hashlib.new(first_supported(alg)).digest_size
+                clause = "wrong-digest"
+                extra = {"file_size_now": len(data), "clipped_range": rng, "blocks_expected": nblocks,
+                         "blocks_returned": len(got) // dl, "fault_injected_during_this_request": hit,
+                         "got": got[:40], "want": want[:40]}
+        if clause is None:
+            lb.si.read_budget = None
+            return True
+        # blame the history only when a fresh handle over the same bytes answers the request correctly
+        cls = classify(len(data), off, ln, bs)
+        if prior:
+            lb.si.read_budget = budget
+            if fresh_fails(data, off, ln, bs, alg, want):
+                acc.count("history cases failing on a fresh handle as well (reported without history class)")
+            else:
+                cls += ":" + hcls
+        lb.si.read_budget = None
+        acc.violation("%s:%s" % (clause, cls), dict({"case": rec, "request": what}, **extra), replay)
+        return False
+
+    try:
+        ok = True
+        for i, op in enumerate(history):
+            if op[0] == "check":
+                ok = check(op[1], op[2], op[3], "md5", op[4], "history[%d]" % i, i > 0)
+                if not ok:
+                    break
+            elif op[0] == "read":
+                ctl.arm(op[3])
+                try:
+                    client._request(CMD_READ, fobj.handle, int64(op[1]), int(op[2]))
+                except (EOFError, IOError):
+                    pass
+                fired = ctl.disarm() or fired
+            else:
+                ctl.arm(None)
+                try:
+                    client._request(CMD_WRITE, fobj.handle, int64(op[1]), core.filler(op[2], 40 + i))
+                except (EOFError, IOError):
+                    pass
+        acc.ev()
+        if ok:
+            off, ln, bs = probe
+            now = len(disk())
+            end = now if ln == 0 else min(off + ln, now)
+            if end - off >= 256:
+                acc.nt(("history", size, mode, repr(history), probe))
+                acc.count("history class " + h_class(mode, history, fired))
+            if check(off, ln, bs, "sha1", None, "probe", len(history) > 0) and idx % 4001 == 0:
+                acc.sample({"case": rec, "file_size_at_probe": now, "reads": lb.si.reads})
+    finally:
+        lb.si.read_budget = None
+        try:
+            fobj.close()
+        except Exception:
+            pass
+
+
+def h_items(tier):
+    """-> work items (tier-tag, size, mode, history length, first-op index or None)"""
+    items = []
+    for size in H_SIZES[tier]:
+        for mode in H_MODES:
+            maxlen = 3 if (tier == "thorough" and size == 1000) else 2
+            n = len(h_alphabet(mode, size))
+            items.append(("history", size, mode, maxlen, None))         # histories of length 0 and 1
+            for first in range(n):
+                items.append(("history", size, mode, maxlen, first))    # longer ones by first request
+    return items
+
+
+def h_count(tier):
+    n = 0
+    for size in H_SIZES[tier]:
+        for mode in H_MODES:
+            maxlen = 3 if (tier == "thorough" and size == 1000) else 2
+            a = len(h_alphabet(mode, size))
+            n += sum(a ** k for k in range(maxlen + 1)) * len(h_probes(size))
+    return n
+
+
+def run_history(item, acc):
+    _, size, mode, maxlen, first = item
+    base = tempfile.mkdtemp(prefix="c32h-", dir="/dev/shm")
+    try:
+        data0 = core.filler(size, 32)
+        client, lb = R.loop_client(base)
+        alpha = h_alphabet(mode, size)
+        if first is None:
+            hs = [h for h in h_histories(mode, size, 1)]
+        else:
+            hs = [(alpha[first],) + rest for n in range(1, maxlen) for rest in itertools.product(alpha, repeat=n)]
+        idx = (first or 0) * 7
+        try:
+            for h in hs:
+                for probe in h_probes(size):
+                    idx += 1
+                    h_run(acc, client, lb, base, size, data0, mode, h, probe, idx)
+        finally:
+            lb.close()
+    finally:
+        shutil.rmtree(base, ignore_errors=True)
+
+
+def run_item(item, acc):
+    if item[0] == "history":
+        return run_history(item, acc)
+    return run_size(item, acc)
+
+
 def main(tier):
     ck = core.Check(
         PID, tier, "exploration",
@@ -288,11 +552,16 @@ def main(tier):
         "(quick: sub-lattice index-sum = 0 mod 6); nontrivial = distinct case to which the statement "
         "applies: non-empty clipped range and (block size >= 256, or block size 0 with range >= 256); "
         "every case is executed once per (read policy of the handle's file object, end-of-file signal) "
-        "and each such execution counts as one evaluation / one distinct nontrivial case",
+        "and each such execution counts as one evaluation / one distinct nontrivial case; part 2: case = "
+        "(file size, open mode, sequence of earlier requests on the handle, probe), nontrivial = the probe's "
+        "clipped range is >= 256 bytes at the time of the probe",
         ["synchronous loopback client/server, local-directory stub handle over a plain buffered file; "
          "short reads and the SFTP_EOF code are produced by the enumerated read policy, not by the OS",
          "read policies are deterministic per request: at most k bytes per read, or only the k-th read "
          "call of the request is short (k <= 3); reads are never short by a data-dependent amount",
+         "part 2: the injected fault is one IOError(EIO) from the k-th read call of the file object during one "
+         "request (k <= 2), raised either before or after the file object consumed the bytes; the earlier "
+         "requests and the probe use full reads and b'' at end of file",
          "termination detector: read-call budget 4*(blocks + range/min(64KiB, read cap) + 2) + 64 per request"])
     cases = all_cases(tier)
     items = []
@@ -302,17 +571,37 @@ def main(tier):
         for part in enum.chunks(lst, n):
             items.append((tier, si, part))
     items.sort(key=lambda it: -SIZES[it[1]])
-    ck.merge(core.pmap(items, run_size))
+    items += h_items(tier)
+    ck.merge(core.pmap(items, run_item))
     ck.extra["bound"] = {"sizes": SIZES, "blocks": blocks_for(tier), "algs": ALGS,
                          "read_policies": [list(p) for p in READ_POLICIES], "eof_signals": EOF_SIGNALS,
                          "grid_cases": sum(len(v) for v in cases.values()),
-                         "cases": sum(len(v) for v in cases.values()) * len(POLICIES)}
+                         "cases": sum(len(v) for v in cases.values()) * len(POLICIES),
+                         "history_sizes": H_SIZES[tier], "history_modes": H_MODES,
+                         "history_alphabet": {m: len(h_alphabet(m, 1000)) for m in H_MODES},
+                         "history_cases": h_count(tier)}
     return ck.finish()
 
 
 def replay(rec):
     r = rec["replay"]
     acc = core.Acc()
+    if r.get("part") == "handle-history":
+        hist = tuple(tuple(tuple(x) if isinstance(x, list) else x for x in op) for op in r["history"])
+        base = tempfile.mkdtemp(prefix="c32h-", dir="/dev/shm")
+        try:
+            client, lb = R.loop_client(base)
+            h_run(acc, client, lb, base, r["size"], core.filler(r["size"], 32), r["mode"], hist,
+                  tuple(r["probe"]), 1)
+            lb.close()
+        finally:
+            shutil.rmtree(base, ignore_errors=True)
+        for v in acc.violations:
+            print(v["key"])
+            print(v["detail"])
+        if not acc.violations:
+            print("case passes:", r)
+        return 1 if any(v["key"] == rec["key"] for v in acc.violations) else 0
     si = SIZES.index(r["size"])
     policy = (tuple(r.get("read_policy", ["full"])), r.get("eof_signal", "empty"))
     run_size(("replay", si, [(r["offset"], r["length"], r["block_size"], r["alg"], policy)]), acc)
